@@ -38,6 +38,8 @@ CORPUS.update({
     "balanced-loader": 'Entity c1 = place("steel-chest", 0, 0);\nEntity c2 = place("steel-chest", 1, 0);\nEntity c3 = place("steel-chest", 2, 0);\nEntity i1 = place("fast-inserter", 0, 1);\nEntity i2 = place("fast-inserter", 1, 1);\nEntity i3 = place("fast-inserter", 2, 1);\nBundle total = {c1.output, c2.output, c3.output};\nBundle neg_avg = total / -3;\nBundle in1 = {neg_avg, c1.output};\nBundle in2 = {neg_avg, c2.output};\nBundle in3 = {neg_avg, c3.output};\ni1.enable = any(in1) < 0;\ni2.enable = any(in2) < 0;\ni3.enable = any(in3) < 0;\n',
     # a scalar that is both a member of a bundle and the scalar operand of its each-arithmetic (two colours, one pair)
     "bundle-member-scalar": 'Signal s = ("signal-S", 3);\nSignal y2 = ("signal-Y", 4);\nBundle b = {s, y2, ("signal-B", 5)};\nBundle m = b * s;\nBundle p = b + s;\n',
+    # a program using the bundled library through the documented import form
+    "uses-lib": 'import "lib/math.facto";\nSignal x = ("signal-X", -7);\nSignal r = abs(x) + max(x, 3);\nSignal q = clamp(x, 0, 5);\n',
     # a pair for compile histories: the first registers internal labels, the second uses such a label as a variable name
     "hist-memory-named-counter": 'Memory counter: "signal-A";\ncounter.write(counter.read() + 1);\nBundle bundle = {("signal-X", 1), ("signal-Y", 2)};\nSignal o = counter.read() + bundle["signal-X"];\n',
     "hist-variable-named-mem-counter": 'Signal mem_counter = 5;\nSignal y = mem_counter * 3;\nSignal bundle = 7;\nSignal z = bundle + y;\n',
